@@ -24,6 +24,12 @@
 //                        i.e. the prefix is consumed with the policy's own eol rule where it
 //                        matches (bump_to_next_line) and byte-wise otherwise; skipped when the
 //                        eol rule jumps over offset k (k inside a 2-byte line ending).
+//               revisit: in.bump( k ), remember the inputerator, consume the rest, ask for the
+//                        position at the end, then for the position of the remembered point
+//                        (what action_input::position() does after later positions were taken)
+//               restart: the input object is used twice: consume everything, restart (eager:
+//                        restart( byte, line, column ) on an object constructed with OTHER
+//                        counters; lazy: restart()), in.bump( k ); p = in.position()
 //   The unit index (running number in enumeration order) modulo nshards selects the shard.
 //
 // ORACLE (independent of the library, see section "ORACLE" below)
@@ -254,9 +260,11 @@ enum Src
    S_BUMP,
    S_ERROR,
    S_EOLERR,
+   S_REVISIT,
+   S_RESTART,
    S_COUNT
 };
-static const char* const SRC_NAME[] = { "bump", "error", "eolerr" };
+static const char* const SRC_NAME[] = { "bump", "error", "eolerr", "revisit", "restart" };
 static const char* const TRK_NAME[] = { "eager", "lazy" };
 
 struct Unit
@@ -350,7 +358,9 @@ static void observe( const char* b, size_t n, const Init& I, int src, size_t k, 
 {
    using In = pegtl::memory_input< P, Eol, std::string >;
    std::optional< In > oin;
-   if( I.is_default() )
+   if( src == S_RESTART && P == pegtl::tracking_mode::eager )
+      oin.emplace( b, b + n, "src", I.byte ? std::size_t( 0 ) : std::size_t( 1000 ), I.line + 40, I.col + 4 );  // other counters; restart( I ) follows
+   else if( I.is_default() )
       oin.emplace( b, b + n, "src" );
    else
       oin.emplace( b, b + n, "src", I.byte, I.line, I.col );
@@ -370,6 +380,28 @@ static void observe( const char* b, size_t n, const Init& I, int src, size_t k, 
          catch( const pegtl::parse_error& e ) {
             op.emplace( e.position_object() );
          }
+         break;
+      case S_REVISIT: {
+         // the position of an earlier point (e.g. the begin of an action input) asked for after later ones were asked for
+         in.bump( k );
+         const auto it = in.inputerator();
+         in.bump( n - k );
+         (void)in.position();
+         op.emplace( in.position( it ) );
+         break;
+      }
+      case S_RESTART:
+         // the same input object used for a second run: afterwards it behaves like an input constructed with I
+         in.bump( n );
+         (void)in.position();
+         if constexpr( P == pegtl::tracking_mode::eager )
+            in.restart( I.byte, I.line, I.col );
+         else
+            in.restart();
+         in.bump( k );
+         op.emplace( in.position() );
+         o.in_byte = in.byte();
+         o.has_in_byte = true;
          break;
       case S_EOLERR:
          g_target = k;
